@@ -357,3 +357,4 @@ def run(ctx):
     _codec.rule_sat_use(ctx, cd, "R-C03-SAT-USE")
     _codec.rule_offset_sets(ctx, cd, "ser", "R-C03-OFFSET-SET-SER")
     _codec.rule_offset_sets(ctx, cd, "des", "R-C03-OFFSET-SET-DES")
+    _codec.rule_top_empty(ctx, cd, "R-C03-EMPTY-TYPE")
